@@ -34,7 +34,7 @@ fn stored(s: &RS) -> usize {
 
 // @harness name=c14_rwlock_load_swap props=C14 tier=quick flavour=std timeout=2400 cfg=feature="internal-test-strategies" fn=RwLock::load+RwLock::wait_for_readers+ArcSwapAny::swap+ArcSwapAny::store+ArcSwapAny::into_inner
 #[cfg_attr(kani, kani::proof)]
-#[cfg_attr(kani, kani::unwind(4))]
+#[cfg_attr(kani, kani::unwind(12))]
 pub(crate) fn c14_rwlock_load_swap() {
     vassert!(!<NoFastSlots as Config>::USE_FAST && !<hy::NoFast as Config>::USE_FAST, "fallback_only_configuration_is_the_crates_own");
     hy::fresh_ledger();
@@ -84,7 +84,7 @@ fn rcu_closure(_: &TP) -> TP {
 
 // @harness name=c14_rwlock_cas_rcu props=C14 tier=quick flavour=std timeout=2400 cfg=feature="internal-test-strategies" fn=RwLock::compare_and_swap+ArcSwapAny::compare_and_swap+ArcSwapAny::rcu+ArcSwapAny::drop
 #[cfg_attr(kani, kani::proof)]
-#[cfg_attr(kani, kani::unwind(4))]
+#[cfg_attr(kani, kani::unwind(12))]
 pub(crate) fn c14_rwlock_cas_rcu() {
     hy::fresh_ledger();
     let init = hy::any_obj();
